@@ -287,7 +287,7 @@ func init() {
 		ID: "C14",
 		Explanation: "Decides structural necessary conditions of 'output only uses syntax available in the target': R1 every construction of a newer-syntax node outside the parse pass (nullish/logical-assignment/exponent operators, optional chains, templates, arrows, let/const/using, bigint, spread, async/generator, for-of) is dominated by a test that the matching compat.JSFeature bit is not unsupported — in the function itself, in every caller, through a gate wrapper, or preserves an existing node of the same kind — or is a reviewed entry; R2 markSyntaxFeature reports on every path on which the feature is unsupported and every JSFeature constant is consulted by some gate; R3 the feature tables are complete and `supported` overrides are applied in both directions wherever options are built; R4 the embedded runtime text only uses newer syntax inside feature-conditional branches. NOT covered: that each lowering emits only older syntax in the JS text of runtime helpers beyond the lexical check; engine-version table values.",
 		Run: func(p *Prog, tier string) []*RuleResult {
-			return []*RuleResult{c14IntroduceGate(p), c14DiagnoseOrLower(p), c14Tables(p), c14RuntimeText(p), c14RuntimeFeatures(p)}
+			return []*RuleResult{c14IntroduceGate(p), c14DiagnoseOrLower(p), c14Tables(p), c14RuntimeText(p), c14RuntimeFeatures(p), c14ExportNameScope(p)}
 		},
 	})
 }
@@ -716,5 +716,56 @@ func c14RuntimeFeatures(p *Prog) *RuleResult {
 			}
 		}
 	}
+	return r
+}
+
+// C14/R6 export-name diagnostic scope.
+//
+// String-literal export names (`export { x as "a b" }`, ES2022) cannot be lowered. In a bundle the
+// original export statements are stripped and the only place such a name is emitted is the
+// `export { … }` clause the linker generates for a chunk whose file is an entry point — any entry
+// point: user-specified ones and, with code splitting, files reached only through import(). The
+// one diagnostic for it sits in scanImportsAndExports where the export aliases of a file are
+// sorted; it must therefore be gated on IsEntryPoint(), the predicate computeChunks uses to mark a
+// chunk as an entry point, not on the narrower IsUserSpecifiedEntryPoint().
+func c14ExportNameScope(p *Prog) *RuleResult {
+	r := NewRule("C14/R6 export-name-diagnostic-scope", "the diagnostic for string-literal export names of a file's resolved exports is gated on the file being an entry point of any kind (the predicate that decides whether an export clause is generated), never only on user-specified entry points")
+	diag := p.FindFunc("linker.(*linkerContext).maybeForbidArbitraryModuleNamespaceIdentifier")
+	scan := p.FindFunc("linker.(*linkerContext).scanImportsAndExports")
+	if !r.Anchor("linker.(*linkerContext).maybeForbidArbitraryModuleNamespaceIdentifier", diag != nil) || !r.Anchor("linker.(*linkerContext).scanImportsAndExports", scan != nil) {
+		return r
+	}
+	n := 0
+	for _, fn := range withClosures(scan) {
+		eachInstr(fn, func(b *ssa.BasicBlock, in ssa.Instruction) {
+			c, ok := in.(*ssa.Call)
+			if !ok || c.Call.StaticCallee() != diag {
+				return
+			}
+			n++
+			r.Instances++
+			preds := map[string]bool{}
+			for _, f := range factsAt(b) {
+				backSlice(f.Cond, func(v ssa.Value) bool {
+					if cc, ok := v.(*ssa.Call); ok {
+						if callee := cc.Call.StaticCallee(); callee != nil && strings.Contains(FuncName(callee), "LinkerFile).Is") {
+							preds[callee.Name()] = true
+						}
+					}
+					return true
+				})
+			}
+			key := FuncName(fn) + " export-name diagnostic"
+			switch {
+			case preds["IsUserSpecifiedEntryPoint"]:
+				r.Fail(key, p.Pos(c.Pos()), "the diagnostic is gated on IsUserSpecifiedEntryPoint(): with code splitting a file reached only through import() is an entry point too and gets a generated `export { x as \"…\" }` clause, which is then emitted for targets that do not support it, without an error")
+			case preds["IsEntryPoint"]:
+				r.OK(key, true, "gated on IsEntryPoint()")
+			default:
+				r.Fail(key, p.Pos(c.Pos()), "the diagnostic is not gated on the file being an entry point (IsEntryPoint()): cannot relate it to the files that get a generated export clause")
+			}
+		})
+	}
+	r.Anchor("the export-name diagnostic in scanImportsAndExports", n >= 1)
 	return r
 }
